@@ -66,11 +66,20 @@ def arg_vectors(ab, ep, rng, n):
                 ok = False
             else:
                 bv = body_vals[i % len(body_vals)]
+                is_mp = any(str(b.body_type.value if hasattr(b.body_type, "value") else b.body_type) == "files" for b in ep.bodies)
+                if bv[0] == "model" and is_mp:
+                    # str() of a list / dict (the text an UNTYPED additional property is sent as in a multipart body) is not modelled: keep scalars only
+                    m0 = next((m for m in ab.models if str(m.class_info.name) == bv[1]), None)
+                    declared = {p.name for p in ((m0.required_properties or []) + (m0.optional_properties or []) if m0 else [])}
+                    bv = (bv[0], bv[1], {k: x for k, x in bv[2].items() if k in declared or not isinstance(x, (list, dict))})
                 if bv[0] == "model" and any(str(b.body_type.value if hasattr(b.body_type, "value") else b.body_type) == "files" for b in ep.bodies) and i % 2 == 0:
                     # binary attributes of a multipart body model cannot come from JSON: attach File objects to every other vector
                     m = next((m for m in ab.models if str(m.class_info.name) == bv[1]), None)
                     files = {str(p.python_name): ("F1LE\x00\xff%d" % i).encode("latin-1").hex() for p in ((m.required_properties or []) + (m.optional_properties or []) if m else [])
                              if type(p).__name__ == "FileProperty" and str(p.python_name) == p.name}
+                    # an ARRAY of binary strings: one File per element
+                    files.update({str(p.python_name): [("F1LE-%d-%d" % (i, n)).encode().hex() for n in range(2)] for p in ((m.required_properties or []) + (m.optional_properties or []) if m else [])
+                                  if type(p).__name__ == "ListProperty" and type(p.inner_property).__name__ == "FileProperty" and str(p.python_name) == p.name})
                     if files:
                         bv = (bv[0], bv[1], bv[2], files)
                 v["body"] = bv
